@@ -132,7 +132,9 @@ func ecdsaShapes(x rs, ht byte) []sigShape {
 	return out
 }
 
-var hashTypeClasses = []byte{0x01, 0x02, 0x03, 0x81, 0x82, 0x83, 0x00, 0x04, 0x41, 0x80, 0x84, 0xff}
+// the last four have an undefined bit (0x20, 0x40) set on top of a NONE/SINGLE base type:
+// the digest shape is selected by hashType&0x1f, the committed value is the whole byte
+var hashTypeClasses = []byte{0x01, 0x02, 0x03, 0x81, 0x82, 0x83, 0x00, 0x04, 0x41, 0x80, 0x84, 0xff, 0x22, 0x43, 0xa3, 0xe2}
 
 type keyShape struct {
 	name  string
